@@ -5,6 +5,8 @@ cd /verif
 head=$(git -C /repo rev-parse --short HEAD)
 seeds="$@"; [ -z "$seeds" ] && seeds=$(ls seeded)
 for sd in $seeds; do
+  frozen=$(python3 -c "import json;print(json.load(open('seeded/$sd/meta.json')).get('frozen',False))")
+  [ "$frozen" = "True" ] && { echo "$sd: (frozen: superseded by a later fix, see its note)"; continue; }
   base=$(python3 -c "import json;print(json.load(open('seeded/$sd/meta.json'))['base_commit'])")
   opt=""; git -C /repo apply --check /verif/seeded/$sd/patch.diff 2>/dev/null || opt="-B $base"
   out=$(./selftest/try.sh $opt seeded/$sd/patch.diff $(seq -f 'C%02g' 1 20) 2>&1)
